@@ -139,6 +139,17 @@ def ext_cases(seed, tier, consts, pid):
                     srcn = bytes(s) + b'\0' if L < slen else bytes(s[:slen])      # exactly the declared extent
                     add('stpncpy_s', [('R', dest), ('R', srcn), ('R', errp0)], [(0, 0), dmax, (1, 0), slen, (2, 0), UNK, UNK],
                         gd(0, 0, dmax, 1, producer=True, slack=True, fail='errp', writable=[(2, 0, 4)], copylike=True, ref=refn, readonly=[(1, 0, len(srcn))]), L=L, slen=slen, prior=prior)
+                # the source object size is known to the library and the source fills its object without a terminator: the copy
+                # must stop there (ESUNTERM), whichever operand lies lower in memory (the two copy loops are separate code)
+                if prior == 'garbage' and 1 <= L < dmax:
+                    srcu = bytes(c if c else 0x61 for c in s)
+                    for below in (True, False):
+                        bl = [('R', srcu), ('R', dest), ('R', errp0)] if below else [('R', dest), ('R', srcu), ('R', errp0)]
+                        di, si = (1, 0) if below else (0, 1)
+                        add('stpcpy_s', bl, [(di, 0), dmax, (si, 0), (2, 0), UNK, L],
+                            gd(di, 0, dmax, 1, producer=True, slack=True, fail='errp', writable=[(2, 0, 4)], copylike=True, ref=('fail',), readonly=[(si, 0, L)]), L=L, prior=prior, srcbos='exact-unterminated', below=below)
+                        add('stpncpy_s', bl, [(di, 0), dmax, (si, 0), L + 2, (2, 0), UNK, L],
+                            gd(di, 0, dmax, 1, producer=True, slack=True, fail='errp', writable=[(2, 0, 4)], copylike=True, ref=None, readonly=[(si, 0, L)]), L=L, slen=L + 2, prior=prior, srcbos='exact-unterminated', below=below)
                 # field copies: strcpyfld_s copies exactly slen characters (no terminator), the rest of the field is zeroed
                 for slen in sorted(set(x for x in (1, dmax - 1, dmax, dmax + 1) if x >= 1)):
                     fsrc = bytes(rstr(rng, slen))
